@@ -14,7 +14,7 @@ SPEC = dict(
                 "(512-byte shares, no empty range row), wrong wire type refused, truncated frames refused, encoder injectivity; re-validated "
                 "byte-for-byte against the real Marshal/WriteTo and Unmarshal+FromProto/ReadFrom on ~2k encoder/decoder cases per run. "
                 "Partial: the JSON form of containers is covered by the implementation round-trip oracle only."),
-    rule=("constructor cases: every id kind x heights {0,1,2^16,2^32-1,2^63,2^64-1,..} x square sizes {0,1,..,2*MaxSquareSize} x "
+    rule=("reused receivers: every stream fed to a ReadFrom is also decoded into a receiver that already holds an earlier successfully decoded response of the same kind (the longest and the latest seen so far); outcome and value must equal those of a fresh receiver; constructor cases: every id kind x heights {0,1,2^16,2^32-1,2^63,2^64-1,..} x square sizes {0,1,..,2*MaxSquareSize} x "
           "index boundary values (negative, 0, size-1, size, 2^16-1, 2^16, 2^32-1, 2^32) + random valid ids up to the protocol maximum; "
           "decoder cases: honest encodings, each field at its extremes, wrong lengths, all namespace classes, random bytes. "
           "A case is non-trivial when the implementation accepted the input or rejected a right-length input / a constructor call; "
